@@ -41,6 +41,27 @@ var c08Ops = []string{
 
 // opShape is the operand shape of the single-step harnesses: [2,2], or the rank-3 shape [2,1,2]
 // (a size-1 dimension in the middle) when the work item says so.
+// opShapeOf is the shape of operand i of op: opShape() unless the work item asks for an operand PAIR of
+// different ranks ("pair" = 1: higher-rank non-square left operand; 2: the same pair swapped), which
+// exists for the broadcasting arithmetic and for MatMul.
+func opShapeOf(op string, i int) []int {
+	pair := vrt.ParamOr("pair", 0)
+	if pair == 0 {
+		return opShape()
+	}
+	hi, lo := []int{2, 3, 2}, []int{3, 1}
+	if op == "MatMul" {
+		lo = []int{2, 1}
+		if pair == 2 {
+			hi, lo = []int{2, 2, 3}, []int{1, 2}
+		}
+	}
+	if (i == 0) == (pair == 1) {
+		return hi
+	}
+	return lo
+}
+
 func opShape() []int {
 	if vrt.Param("shape3") == 1 {
 		return []int{2, 1, 2}
@@ -145,13 +166,13 @@ func mustSliceKeep(u T) T {
 func H_C08_step() {
 	op := vrt.SParam("op")
 	n := c08Arity(op)
-	dims := opShape()
 	xs := make([]T, n)
 	clean := make([]T, n)
 	anyTracked, anySpent := false, false
 	for i := 0; i < n; i++ {
 		st := vrt.Concretize(vrt.Int(vrt.Nm("state", i), 0, 3))
 		var e []float64
+		dims := opShapeOf(op, i)
 		xs[i], e = operandInState(vrt.Nm("x", i), dims, st)
 		clean[i] = fromFlat(e, dims, false)
 		if st == 1 || st == 2 {
@@ -161,8 +182,16 @@ func H_C08_step() {
 			anySpent = true
 		}
 	}
+	preT, preD, preG, preE := make([]bool, n), make([]bool, n), make([]bool, n), make([]int, n)
+	for i := 0; i < n; i++ {
+		preT[i], preD[i], preG[i], preE[i] = vrt.Tracked(xs[i]), vrt.Dirty(xs[i]), xs[i].Gradient() != nil, vrt.NumEdges(xs[i])
+	}
 	y, err := c08Apply(op, xs)
 	y0, err0 := c08Apply(op, clean)
+	for i := 0; i < n; i++ {
+		vrt.Assert("a forward op leaves the tracking state of its operands as it was (tracked, spent, gradient, edges)",
+			vrt.Tracked(xs[i]) == preT[i] && vrt.Dirty(xs[i]) == preD[i] && (xs[i].Gradient() != nil) == preG[i] && vrt.NumEdges(xs[i]) == preE[i])
+	}
 	vrt.Assert("tracking does not change acceptance", (err == nil) == (err0 == nil))
 	if err != nil || err0 != nil || y == nil || y0 == nil {
 		return
